@@ -155,8 +155,96 @@ func isResultFlagLoad(v ssa.Value, field string) bool {
 // repository helper are expanded into the facts the helper's own path table implies, read with
 // the helper's parameters bound to the call-site arguments.
 func (c *c06Ctx) atoms(p *Path) *c06Atoms {
+	facts := factList(p.Facts)
+	// named boolean flags (`exceeded := enabled && x != nil && span > max`, possibly computed before the
+	// loop): true means every operand holds, false means some operand fails
+	ff := c06FactsOf(c.eval)
+	var falseFlags [][]Fact
+	for _, f := range factList(p.Facts) {
+		phi, isPhi := f.V.(*ssa.Phi)
+		if !isPhi {
+			continue
+		}
+		if f.Pol {
+			facts = append(facts, factList(ff.impliedByFlag(phi, true, 0))...)
+		} else if cases, ok := c06FalseCases(ff, phi, 0); ok {
+			falseFlags = append(falseFlags, cases)
+		}
+	}
+	a := c.atomsFromFacts(facts)
+	// a false flag refutes a trigger when each way of being false does
+	for _, cases := range falseFlags {
+		var per []*c06Atoms
+		for _, cf := range cases {
+			per = append(per, c.atomsFromFacts([]Fact{cf}))
+		}
+		for _, t := range []string{"F1", "F2", "F3"} {
+			all := len(per) > 0
+			for _, pa := range per {
+				if !pa.failRefuted(t) {
+					all = false
+				}
+			}
+			if all {
+				x := a.cmp[t]
+				x.refuted = true
+				a.cmp[t] = x
+			}
+		}
+		all := len(per) > 0
+		for _, pa := range per {
+			if !(pa.pauseEnabled == triFalse || pa.cmp["P2"].refuted) {
+				all = false
+			}
+		}
+		if all {
+			x := a.cmp["P2"]
+			x.refuted = true
+			a.cmp["P2"] = x
+		}
+	}
+	return a
+}
+
+// c06FalseCases lists, for a boolean phi that is a short-circuit conjunction, the facts one of
+// which holds when the phi is false: each operand negated. ok=false when the phi has another shape.
+func c06FalseCases(ff *FuncFacts, phi *ssa.Phi, depth int) ([]Fact, bool) {
+	if depth > 4 {
+		return nil, false
+	}
+	var out []Fact
+	nLast := 0
+	for i, e := range phi.Edges {
+		pred := phi.Block().Preds[i]
+		if b, isC := constBool(e); isC {
+			if b {
+				return nil, false // an `||` shape: true by another route
+			}
+			iff, isIf := pred.Instrs[len(pred.Instrs)-1].(*ssa.If)
+			if !isIf || pred.Succs[0] == pred.Succs[1] {
+				return nil, false
+			}
+			// the edge to the phi is taken when the operand is false
+			out = append(out, ff.K.normCond(iff.Cond, pred.Succs[0] == phi.Block())...)
+			continue
+		}
+		nLast++
+		if sub, isPhi := e.(*ssa.Phi); isPhi {
+			cases, ok := c06FalseCases(ff, sub, depth+1)
+			if !ok {
+				return nil, false
+			}
+			out = append(out, cases...)
+			continue
+		}
+		out = append(out, ff.K.normCond(e, false)...)
+	}
+	return out, nLast == 1 && len(out) > 0
+}
+
+func (c *c06Ctx) atomsFromFacts(facts []Fact) *c06Atoms {
 	a := &c06Atoms{cmp: map[string]c06Cmp{}, thrNil: map[string]tri{}, condNil: map[string]tri{}}
-	for _, xf := range expandFacts(c.r.Prog, factList(p.Facts), nil, 0) {
+	for _, xf := range expandFacts(c.r.Prog, facts, nil, 0) {
 		f, env := xf.Fact, xf.env
 		v := f.V
 		// ordered comparisons
@@ -1532,9 +1620,22 @@ func c06Wire(c *c06Ctx, reach map[*ssa.Function]bool) {
 		}
 		endedT := ""
 		if ended := r.Prog.Func(pkgEDS, "IsCanaryDeploymentEnded"); ended != nil {
-			for _, ci := range callsIn(ended) {
-				if call, ok := ci.(*ssa.Call); ok && calleeName(&call.Call) == pkgERSCond+".GetExtendedDaemonSetReplicaSetStatusCondition" {
-					endedT, _ = condTypeConst(call)
+			// the lookup may sit in a helper of the predicate; every condition it consults must be that one
+			types := map[string]bool{}
+			for _, g := range r.Prog.calleesWithin(ended, 3) {
+				if g.Pkg != nil && g.Pkg.Pkg.Path() == pkgERSCond {
+					continue
+				}
+				for _, ci := range callsIn(g) {
+					if call, ok := ci.(*ssa.Call); ok && calleeName(&call.Call) == pkgERSCond+".GetExtendedDaemonSetReplicaSetStatusCondition" {
+						t, _ := condTypeConst(call)
+						types[t] = true
+					}
+				}
+			}
+			if len(types) == 1 {
+				for t := range types {
+					endedT = t
 				}
 			}
 		}
@@ -1605,17 +1706,36 @@ func c06Wire(c *c06Ctx, reach map[*ssa.Function]bool) {
 		k := newKeyer(fn)
 		for _, st := range sts {
 			root, _ := accessPath(st.Addr)
-			switch root.(type) {
-			case *ssa.IndexAddr, *ssa.Parameter: // an element of status.Conditions, or an existing condition handed in by pointer
-			default:
-				continue // a freshly built condition
+			// an element of status.Conditions, an existing condition handed in by pointer, or a local copy
+			// of one (copy - modify - store back); a composite literal is a freshly built condition
+			origins := c06CopyOrigins(root)
+			existing := false
+			for _, o := range origins {
+				switch o.(type) {
+				case *ssa.IndexAddr, *ssa.Parameter:
+					existing = true
+				}
+			}
+			if !existing {
+				continue
 			}
 			nst++
-			rk := k.key(root)
+			okeys := map[string]bool{}
+			for _, o := range origins {
+				okeys[k.key(o)] = true
+			}
 			changed := ff.Holds(st.Block(), false, func(v ssa.Value, _ string) bool {
 				return isEqCompare(v, func(x ssa.Value) bool {
 					xr, xp := accessPath(stripConv(x))
-					return len(xp) == 1 && xp[0] == "Status" && k.key(xr) == rk
+					if len(xp) != 1 || xp[0] != "Status" {
+						return false
+					}
+					for _, o := range c06CopyOrigins(xr) {
+						if okeys[k.key(o)] {
+							return true
+						}
+					}
+					return false
 				}, func(x ssa.Value) bool {
 					p, isP := stripConv(x).(*ssa.Parameter)
 					return isP && typeName(p.Type()) == pkgCoreV1+".ConditionStatus"
@@ -1918,8 +2038,13 @@ func c06EvaluatedAt(c *c06Ctx, fn *ssa.Function, ci ssa.CallInstruction, pods ss
 		}
 	}
 	header := podsPhi.Block()
-	if curPhi == nil || curPhi.Block() != header {
-		r.Undecided("C06.R11", construct, pos, fname, "the counter stored into NewStatus.Current is not a loop variable of the loop that builds the list of evaluated pods")
+	// or a field of a local counter object that helper methods increment and write out
+	var countInstrs map[ssa.Instruction]bool
+	if curPhi == nil {
+		countInstrs = c06CellCountEvents(r.Prog, fn)
+	}
+	if (curPhi == nil || curPhi.Block() != header) && len(countInstrs) == 0 {
+		r.Undecided("C06.R11", construct, pos, fname, "the counter stored into NewStatus.Current is neither a loop variable of the loop that builds the list of evaluated pods nor a field of a local counter incremented in it")
 		return
 	}
 	k := newKeyer(fn)
@@ -1958,13 +2083,27 @@ func c06EvaluatedAt(c *c06Ctx, fn *ssa.Function, ci ssa.CallInstruction, pods ss
 			continue
 		}
 		pred := p.Blocks[len(p.Blocks)-2]
-		cv := edgeOf(curPhi, pred)
-		if cv == nil {
-			continue
-		}
-		cv = resolve(p, cv)
-		if stripConv(cv) == ssa.Value(curPhi) {
-			continue // not counted as current on this path
+		if curPhi != nil && curPhi.Block() == header {
+			cv := edgeOf(curPhi, pred)
+			if cv == nil {
+				continue
+			}
+			cv = resolve(p, cv)
+			if stripConv(cv) == ssa.Value(curPhi) {
+				continue // not counted as current on this path
+			}
+		} else {
+			counted := false
+			for _, b := range p.Blocks {
+				for _, in := range b.Instrs {
+					if countInstrs[in] {
+						counted = true
+					}
+				}
+			}
+			if !counted {
+				continue
+			}
 		}
 		nCounted++
 		pv := edgeOf(podsPhi, pred)
@@ -2053,9 +2192,9 @@ func failedConditionWrites(r *Run, rule string) {
 			continue
 		}
 		ff := c06FactsOf(fn)
-		okRole := ff.AtExpanded(site.outer.Block()).any(true, func(v ssa.Value, _ string) bool {
-			return isEqCompare(v, isRole, isConstStringVal(active))
-		})
+		// role == active: a fact at the write, the key of the dispatch table the function is stored
+		// under, or the condition under which every caller calls it
+		okRole := underDispatchFact(r.Prog, fn, site.outer.Block(), isRole, active, 0)
 		detail := ""
 		if !okRole {
 			detail = "the reset is not dominated by the fact role == \"" + active + "\"; must-facts: " + shortSet(ff.At(site.outer.Block()))
@@ -2639,19 +2778,36 @@ func c06ActiveResets(c *c06Ctx) {
 		for _, ci := range calls {
 			found := false
 			for _, s := range sites {
-				if !s.typOK || s.typ != w.typ || s.fn() != ci.Parent() {
+				if !s.typOK || s.typ != w.typ {
 					continue
 				}
 				if st, _ := constString(s.status()); st != "False" {
 					continue
 				}
-				ob := s.outer.Block()
-				before := ob == ci.Block() && instrIndex(s.outer) < instrIndex(ci) || ob != ci.Block() && ob.Dominates(ci.Block())
-				underRole := c06FactsOf(s.fn()).AtExpanded(ob).any(true, func(v ssa.Value, _ string) bool {
-					return isEqCompare(v, isRole, isConstStringVal(active))
-				})
-				if before && underRole {
-					found = true
+				// the write itself, or the call of a helper that performs it on each of its paths
+				positions := []ssa.Instruction{s.outer}
+				if s.fn() != ci.Parent() {
+					positions = nil
+					always := true
+					for _, rb := range s.fn().Blocks {
+						if isReturnBlock(rb) && !s.outer.Block().Dominates(rb) {
+							always = false
+						}
+					}
+					if always {
+						for _, hc := range callsIn(ci.Parent()) {
+							if staticCallee(hc.Common()) == s.fn() {
+								positions = append(positions, hc)
+							}
+						}
+					}
+				}
+				for _, at := range positions {
+					ob := at.Block()
+					before := ob == ci.Block() && instrIndex(at) < instrIndex(ci) || ob != ci.Block() && ob.Dominates(ci.Block())
+					if before && underDispatchFact(r.Prog, ci.Parent(), ob, isRole, active, 0) {
+						found = true
+					}
 				}
 			}
 			if !found {
@@ -2662,4 +2818,143 @@ func c06ActiveResets(c *c06Ctx) {
 		r.Check("C06.R9", "active role resets "+w.typ, r.Prog.Pos(entry.Pos()), "-",
 			"a replica set that becomes active has the condition written from "+flag+" reset to False (the verdict of a finished canary episode is not read again)", ok, detail)
 	}
+}
+
+// c06CopyOrigins returns root and, when root is a local struct cell initialised by copying another
+// struct value (`refreshed := current`, a by-value parameter spilled to a cell), the roots it was
+// copied from, transitively.
+func c06CopyOrigins(root ssa.Value) []ssa.Value {
+	out := []ssa.Value{root}
+	seen := map[ssa.Value]bool{root: true}
+	for i := 0; i < len(out) && i < 8; i++ {
+		a, ok := out[i].(*ssa.Alloc)
+		if !ok {
+			continue
+		}
+		for _, rf := range refs(a) {
+			st, isSt := rf.(*ssa.Store)
+			if !isSt || st.Addr != ssa.Value(a) {
+				continue
+			}
+			for _, p := range pathsOf(stripConv(st.Val)) {
+				if len(p.fields) == 0 && p.root != nil && !seen[p.root] {
+					seen[p.root] = true
+					out = append(out, p.root)
+				}
+			}
+		}
+	}
+	return out
+}
+
+// c06CellCountEvents: when NewStatus.Current is written from field f of a local counter object
+// (directly, or by a helper that receives the object and the status), it returns the instructions
+// of fn that increment that field by one: a direct store cell.f = cell.f + 1, or a call of a
+// repository function that receives the object and performs that increment on each of its paths.
+func c06CellCountEvents(prog *Prog, fn *ssa.Function) map[ssa.Instruction]bool {
+	type loc struct {
+		cell  *ssa.Alloc
+		field string
+	}
+	var locs []loc
+	cellField := func(v ssa.Value, bind func(*ssa.Parameter) ssa.Value) (loc, bool) {
+		ps := pathsOf(stripConv(v))
+		if len(ps) != 1 || len(ps[0].fields) != 1 {
+			return loc{}, false
+		}
+		root := ps[0].root
+		if p, isP := root.(*ssa.Parameter); isP && bind != nil {
+			root = stripConv(bind(p))
+		}
+		a, isA := root.(*ssa.Alloc)
+		if !isA {
+			return loc{}, false
+		}
+		return loc{a, ps[0].fields[0]}, true
+	}
+	// where does NewStatus.Current come from
+	for _, st := range storesToFieldOf(fn, pkgAPI, "ExtendedDaemonSetReplicaSetStatus", "Current") {
+		if l, ok := cellField(st.Val, nil); ok {
+			locs = append(locs, l)
+		}
+	}
+	for _, ci := range callsIn(fn) {
+		g := staticCallee(ci.Common())
+		if g == nil || !prog.IsRuleSite(g) {
+			continue
+		}
+		bind := func(p *ssa.Parameter) ssa.Value {
+			if i := paramIndex(p); i >= 0 && i < len(ci.Common().Args) {
+				return ci.Common().Args[i]
+			}
+			return p
+		}
+		for _, st := range storesToFieldOf(g, pkgAPI, "ExtendedDaemonSetReplicaSetStatus", "Current") {
+			if l, ok := cellField(st.Val, bind); ok {
+				locs = append(locs, l)
+			}
+		}
+	}
+	out := map[ssa.Instruction]bool{}
+	isIncrement := func(st *ssa.Store, field string) bool {
+		fa, ok := st.Addr.(*ssa.FieldAddr)
+		if !ok || fieldName(fa) != field {
+			return false
+		}
+		bo, isB := st.Val.(*ssa.BinOp)
+		if !isB || bo.Op != token.ADD {
+			return false
+		}
+		one, isOne := constInt(bo.Y)
+		ld, isLd := bo.X.(*ssa.UnOp)
+		if !isOne || one != 1 || !isLd {
+			return false
+		}
+		lfa, isFA := ld.X.(*ssa.FieldAddr)
+		return isFA && fieldName(lfa) == field && lfa.X == fa.X
+	}
+	for _, l := range locs {
+		for _, b := range fn.Blocks {
+			for _, in := range b.Instrs {
+				switch x := in.(type) {
+				case *ssa.Store:
+					if fa, ok := x.Addr.(*ssa.FieldAddr); ok && fa.X == ssa.Value(l.cell) && isIncrement(x, l.field) {
+						out[in] = true
+					}
+				case ssa.CallInstruction:
+					g := staticCallee(x.Common())
+					if g == nil || !prog.IsRuleSite(g) || len(g.Blocks) == 0 {
+						continue
+					}
+					for ai, a := range x.Common().Args {
+						if stripConv(a) != ssa.Value(l.cell) || ai >= len(g.Params) {
+							continue
+						}
+						// the callee increments param.field on every path: the store's block dominates every return
+						for _, gb := range g.Blocks {
+							for _, gin := range gb.Instrs {
+								st, isSt := gin.(*ssa.Store)
+								if !isSt || !isIncrement(st, l.field) {
+									continue
+								}
+								if fa := st.Addr.(*ssa.FieldAddr); fa.X != ssa.Value(g.Params[ai]) {
+									continue
+								}
+								always := true
+								for _, rb := range g.Blocks {
+									if isReturnBlock(rb) && !gb.Dominates(rb) {
+										always = false
+									}
+								}
+								if always {
+									out[in] = true
+								}
+							}
+						}
+					}
+				}
+			}
+		}
+	}
+	return out
 }
